@@ -102,7 +102,20 @@ func (m *ParamLab) GenFaults(w *engine.World, r *engine.Rand) []engine.Fault {
 		return nil
 	}
 	m.n++
-	a := labArgs{Module: labModules[r.Intn(len(labModules))], Values: map[string]string{}, Genesis: r.Bool(m.cfg.PGenesis)}
+	// only modules whose workload takes part in this run
+	var present []string
+	for _, name := range labModules {
+		for _, wl := range labWorkload[name] {
+			if w.Mod(wl) != nil {
+				present = append(present, name)
+				break
+			}
+		}
+	}
+	if len(present) == 0 {
+		return nil
+	}
+	a := labArgs{Module: present[r.Intn(len(present))], Values: map[string]string{}, Genesis: r.Bool(m.cfg.PGenesis)}
 	v := a.Values
 	switch a.Module {
 	case "coinswap":
